@@ -6,7 +6,7 @@ from ..scripted import enumerate_runs, BranchExplosion
 
 LEVEL = 'proof'
 META = dict(
-    text='Coq theorems about the reference ensemble semantics (projective measurement splits a branch into projections whose masses add up to the mass of the branch, projections on the same axes are idempotent and orthogonal, unitary-free steps preserve total mass; measuring inside one factor of a product state projects that factor only and squared norms multiply) and, on every run, an exact comparison: a scripted seed object enumerates EVERY random branch of a Cirq run together with the probability Cirq assigned to it, and the resulting joint distribution over all recorded results (and the branch states) is compared with the model evaluated inside Coq, for the state-vector, density-matrix and Clifford simulators, terminal (fast path) and mid-circuit measurements, invert masks, confusion maps, repeated keys, qudits and classically controlled operations.',
+    text='Coq theorems about the reference ensemble semantics (projective measurement splits a branch into projections whose masses add up to the mass of the branch, projections on the same axes are idempotent and orthogonal, unitary-free steps preserve total mass; measuring inside one factor of a product state projects that factor only and squared norms multiply) and, on every run, an exact comparison: a scripted seed object enumerates EVERY random branch of a Cirq run together with the probability Cirq assigned to it, and the resulting joint distribution over all recorded results (and the branch states) is compared with the model evaluated inside Coq, for the state-vector, density-matrix and Clifford simulators, terminal (fast path) and mid-circuit measurements, invert masks, confusion maps, repeated keys, qudits and classically controlled operations. Re-keying: renaming measurement keys injectively (key maps, key-path prefixes, sub-circuit scoping) preserves the ensemble and the distribution of the recorded digits (refuted when keys are merged), compared on circuits re-keyed through eight public routes; an integer seed must give bit for bit the samples of numpy.random.RandomState(seed) at 27 sampling entry points.',
     note='Trusted: Coq kernel; float instance (tolerance 2e-6); the scripted seed (vf/scripted.py) stands for numpy.random: the claim is about the probabilities handed to the sampler, not about the sampler; gate matrices enter through cirq.unitary (tied to the documented matrices by C03). Branch enumeration uses repetitions=1.',
     technique='Rocq/Coq proof over an executable ensemble semantics + exact branch enumeration of the simulators through a scripted seed, compared by vm_compute',
 )
